@@ -50,13 +50,17 @@ pub(crate) fn run() -> Result<(), Error> {
     }
 
     // We know our caller already owns the lock on target, so we don't have to
-    // acquire another one; tell redo-ifchange about that.  Also, we keep
-    // REDO_NO_OOB set, because we don't want to do OOB now either.
-    // (Actually it's most important for the primary target, since it's the one
-    // who initiated the OOB in the first place.)
+    // acquire another one; tell redo-ifchange about that.
+    //
+    // The primary target may still be uncertain now: a checksummed dependency
+    // whose own (checksummed) dependency we have just rebuilt with a changed
+    // checksum needs to be rebuilt before anyone can tell whether *it* changed.
+    // Let redo-ifchange go out of band again for that instead of building the
+    // primary target on suspicion.  Everything built so far is marked as
+    // checked or changed in this run, so each round settles at least one
+    // level and the recursion ends.
     let status = Command::new("redo-ifchange")
         .arg(&target)
-        .env(ENV_NO_OOB, "1")
         .env(ENV_UNLOCKED, "1")
         .spawn()?
         .wait()?;
